@@ -2,7 +2,7 @@
 
 Checks against different mutated trees cannot share one /verif (coq/Generated/*.v is rewritten from $VERIF_REPO on every run), so each
 lane is its own git worktree of /verif under /tmp (created and built once: `git worktree add --detach /tmp/lane_k HEAD && ./setup.sh`).
-usage: /venv/bin/python tools/seeded_lanes.py <jobs.txt> [n_lanes]      jobs.txt: lines "<PROP> <srcdir> <name> <checks,comma,separated>"
+usage: /venv/bin/python tools/seeded_lanes.py <jobs.txt> [n_lanes [first_lane]]      jobs.txt: lines "<PROP> <srcdir> <name> <checks,comma,separated>"
 Every lane is first moved to /verif's HEAD commit (commit your harness changes before calling this); results (seeded/<name>/) are
 copied back into /verif/seeded/."""
 import os
@@ -43,13 +43,14 @@ def lane_worker(k, jobs, lock, out):
 def main():
     jobs = [l.split() for l in open(sys.argv[1]) if l.strip() and not l.startswith("#")]
     n = int(sys.argv[2]) if len(sys.argv) > 2 else 4
+    first = int(sys.argv[3]) if len(sys.argv) > 3 else 1      # lanes first .. first+n-1 (a second set while the first runs something else)
     rc, head = sh("git -C %s rev-parse HEAD" % ROOT)
-    for k in range(1, n + 1):
+    for k in range(first, first + n):
         sh("git -C /tmp/lane_%d clean -fdq -- seeded" % k)      # results copied in by earlier runs (untracked there, tracked in /verif by now)
         rc, o = sh("git -C /tmp/lane_%d checkout -q -f --detach %s" % (k, head.strip()))
         assert rc == 0, o
     lock, out = threading.Lock(), []
-    ts = [threading.Thread(target=lane_worker, args=(k, jobs, lock, out)) for k in range(1, n + 1)]
+    ts = [threading.Thread(target=lane_worker, args=(k, jobs, lock, out)) for k in range(first, first + n)]
     for t in ts:
         t.start()
     for t in ts:
